@@ -42,13 +42,19 @@ def add(src, bid):
 
 def prun(jobs, ids):
     ids = ids or sorted(os.path.basename(d) for d in glob.glob(os.path.join(BEN, "*")) if os.path.isdir(d))
-    todo = [(b, p) for b in ids for p in PROPS]
+    props = os.environ.get("BENIGN_PROPS", "").split() or PROPS      # BENIGN_PROPS="C02 C06": only these checks (results are merged)
+    todo = [(b, p) for b in ids for p in props]
     # slow checks first
     todo.sort(key=lambda bp: {"C20": 0, "C04": 1, "C01": 2, "C19": 3}.get(bp[1], 9))
     lock = threading.Lock()
     par = "/root/scratch/par_benign"
     os.makedirs(par, exist_ok=True)
     results = {b: {} for b in ids}
+    if props != PROPS:
+        for b in ids:
+            rp = os.path.join(BEN, b, "result.json")
+            if os.path.exists(rp):
+                results[b] = json.load(open(rp))
 
     def worker(i):
         vc, wt = os.path.join(par, f"v{i}"), os.path.join(par, f"r{i}")
@@ -100,7 +106,7 @@ def prun(jobs, ids):
         t.join()
     sh(["git", "-C", REPO, "worktree", "prune"])
     quiet = [b for b in ids if results[b] and all(r["exit"] == 0 for r in results[b].values())]
-    print(f"{len(ids)} refactorings x {len(PROPS)} checks; all quiet on {len(quiet)}; alarms: "
+    print(f"{len(ids)} refactorings x {len(props)} checks; all quiet on {len(quiet)}; alarms: "
           + str({b: [p for p, r in results[b].items() if r['exit'] != 0] for b in ids if b not in quiet}))
     return 0
 
